@@ -393,7 +393,7 @@ def _info(obj):
     if hasattr(obj, '_get_verbose_pattern'):
         text = str(obj)
         d, m = den.of_text(text)
-        neg = bool(getattr(obj, '_Class__is_negated'))
+        neg = obj._get_verbose_pattern().startswith('[^')
         is_any = type(obj).__name__ == 'Any'
         gw = type(obj).__name__ in ('AnyWordChar', 'AnyButWordChar') and obj._is_global()
         return ('class', not neg, d, m, is_any, gw)
